@@ -135,7 +135,7 @@ def rule_relative_paths(chk, rid):
            cs[0] if cs else ur, m, key="root-translated")
     t = U(ur)
     chk.ob(rid, f"{RC}.NewRecipeSpecStore.update_recipes", "parent if directory == self.LOCAL_RECIPES else join_key(parent, directory)" in t, "cwd = folder of recipes.yaml or its declared sub-directory", ur, m, key="cwd")
-    chk.ob(rid, f"{RC}.NewRecipeSpecStore.update_recipes", "key = join_key(cwd, name)" in t and "recipes[key] = recipe" in t, "provided names are registered under cwd", ur, m, key="register")
+    chk.ob(rid, f"{RC}.NewRecipeSpecStore.update_recipes", ("key = join_key(cwd, name)" in t and "recipes[key] = recipe" in t) or "recipes[join_key(cwd, name)] = recipe" in t, "provided names are registered under cwd", ur, m, key="register")
 
 
 def rule_stored_format(chk, rid):
